@@ -266,7 +266,8 @@ func VerifC15Gate() {
 		done <- struct{}{}
 	})
 	zzverif.Go("client", func() {
-		if newLE.IsLeader() { // the gate of every write handler
+		if newLE.IsLeader() { // the gate of every write handler and of the /status handler followers ask
+			zzverif.Assert(nb.GetCurrentRevision() >= stored, "a node that says it is leader publishes a read revision that covers everything stored")
 			up, err := nb.Update(ctx, &proto.UpdateRequest{Kv: &proto.KeyValue{Key: key, Value: []byte("w"), Revision: stored}})
 			zzverif.Assert(err == nil, "a node that says it is leader does not reject a guarded update for revision drift")
 			zzverif.Assert(up.Succeeded && up.Header.Revision > stored, "a node that says it is leader hands out revisions above everything stored")
